@@ -128,11 +128,13 @@ Proof.
     + intros e' _. apply path_eqb_false. eapply toks_no_job_last; [apply (Ht e He)|apply is_prefix_refl].
 Qed.
 
+Definition rootdot (T : path) : path := match T with [] => [s_dot] | _ => T end.
+
 Lemma scan_of_inv : forall w cwd cur,
-  Inv P w true cur -> nwf w -> (forall e, In e cur -> fst e <> []) ->
-  forall d, In d (find_all_links w cwd (A P)) <-> In d (map fst cur).
+  Inv P w true cur -> nwf w ->
+  forall d, In d (find_all_links w cwd (A P)) <-> exists T, In T (map fst cur) /\ d = rootdot T.
 Proof.
-  intros w cwd cur I Hw Hroot d. unfold find_all_links.
+  intros w cwd cur I Hw d. unfold find_all_links.
   rewrite absolutize_A by exact P_ne. rewrite walk_A by (auto; eapply inv_dirs_P; eauto).
   destruct (kind_dir_get w P) as [es G].
   { rewrite <- (app_nil_r P). rewrite (inv_kinds _ _ _ _ I). reflexivity. }
@@ -145,40 +147,72 @@ Proof.
   split.
   - intro H0. apply in_map_iff in H0. destruct H0 as [r [E Hr]]. apply (find_links_in_spec (Dir es) Hn [] r) in Hr.
     destruct Hr as [T [-> [K Gj]]]. simpl in E. apply Hg in Gj.
-    apply (vk_key_in cur T (inv_tok _ _ _ _ I)) in Gj.
-    destruct T as [|x T']; [|subst d; exact Gj].
-    exfalso. apply in_map_iff in Gj. destruct Gj as [e [E0 He]]. apply (Hroot e He). exact E0.
-  - intro Hin. apply in_map_iff. exists d. assert (Hne : d <> []).
-    { intro; subst d. apply in_map_iff in Hin. destruct Hin as [e [E0 He]]. apply (Hroot e He). exact E0. }
-    split; [destruct d; [congruence|reflexivity]|].
-    apply (find_links_in_spec (Dir es) Hn [] d). exists d. split; [reflexivity|].
-    destruct (vk_key_of_in cur d (inv_tok _ _ _ _ I) Hin Hne) as [V1 V2].
-    split; [rewrite Hk; exact V2|apply Hg; exact V1].
+    apply (vk_key_in cur T (inv_tok _ _ _ _ I)) in Gj. exists T. split; [exact Gj|]. symmetry. exact E.
+  - intros [T [Hin ->]]. apply in_map_iff. exists T. split; [reflexivity|].
+    apply (find_links_in_spec (Dir es) Hn [] T). exists T. split; [reflexivity|].
+    split.
+    + rewrite Hk. destruct T as [|x T']; [reflexivity|].
+      apply (proj2 (vk_key_of_in cur (x :: T') (inv_tok _ _ _ _ I) Hin ltac:(discriminate))).
+    + apply Hg. apply in_map_iff in Hin. destruct Hin as [e [<- He]].
+      rewrite vk_nonnil by (destruct (fst e); discriminate).
+      match goal with |- context [find ?f cur] => destruct (find f cur) as [e'|] eqn:F end; [discriminate|].
+      exfalso. apply (find_none _ _ F e) in He. rewrite path_eqb_refl in He. discriminate.
 Qed.
 End Second.
 
-(* ------------------------------------------------------------------ the second run *)
+(* ------------------------------------------------------------------ the normalised existing paths *)
+Lemma normrel_aux_plain : forall q acc, Forall plain q -> normrel_aux acc q = rev acc ++ q.
+Proof.
+  induction q as [|c q IH]; intros acc H; simpl; [rewrite app_nil_r; reflexivity|].
+  inversion H as [|? ? [H1 H2] Hq]; subst. rewrite H1, H2. rewrite IH by exact Hq. simpl.
+  rewrite <- app_assoc. reflexivity.
+Qed.
+
+Lemma normrel_key : forall T, Forall plain T -> normrel (rootdot T ++ [s_job]) = T ++ [s_job].
+Proof.
+  intros T H. destruct T as [|c T]; [reflexivity|].
+  unfold rootdot, normrel. rewrite normrel_aux_plain.
+  - simpl. reflexivity.
+  - apply Forall_app. split; [exact H|]. constructor; [split; reflexivity|constructor].
+Qed.
+
+Definition existing_of (w : node) (cwd prefix : path) : list path :=
+  rev (pnodup (rev (map (fun d => normrel (d ++ [s_job])) (find_all_links w cwd prefix)))).
+
 Definition no_root (sp : spec) : Prop := forall e, In e sp -> fst e <> [].
 
+Lemma existing_of_inv : forall P, P <> [] -> Forall plain P ->
+  forall w cwd (so : spec),
+  good_spec so -> nwf w -> Inv P w true (map (placed P cwd) so) ->
+  forall x, In x (existing_of w cwd (A P)) <-> In x (map key_of so).
+Proof.
+  intros P Pne Ppl w cwd so [Nd Tk] Hw I x.
+  unfold existing_of. rewrite <- in_rev, pnodup_In, <- in_rev, !in_map_iff. split.
+  - intros [d [<- Hd]]. apply (scan_of_inv P Pne Ppl w cwd _ I Hw) in Hd. destruct Hd as [T [HT ->]].
+    rewrite map_map in HT. simpl in HT. apply in_map_iff in HT. destruct HT as [e [<- He]].
+    exists e. split; [|exact He]. unfold key_of. symmetry. apply normrel_key.
+    eapply Forall_impl; [|apply (Tk e He)]. intros a [Ha _]. exact Ha.
+  - intros [e [<- He]]. exists (rootdot (fst e)). split.
+    + unfold key_of. apply normrel_key. eapply Forall_impl; [|apply (Tk e He)]. intros a [Ha _]. exact Ha.
+    + apply (scan_of_inv P Pne Ppl w cwd _ I Hw). exists (fst e). split; [|reflexivity].
+      rewrite map_map. simpl. apply in_map. exact He.
+Qed.
+
+(* ------------------------------------------------------------------ the second run *)
 Theorem second_run_noop : forall P (sp : spec) hint w n cwd,
-  P <> [] -> Forall plain P -> good_spec sp -> no_root sp -> nwf w ->
+  P <> [] -> Forall plain P -> good_spec sp -> nwf w ->
   Inv P w true (map (placed P cwd) sp) ->
   (forall e, In e sp -> realpath w cwd (pjoin (A P) (key_of e)) = snd e) ->
   update_view hint (w, n) cwd (A P) (lk_of sp) = ok (w, n).
 Proof.
-  intros P sp hint w n cwd Pne Ppl [Hnd Ht] Hroot Hw I Hres.
-  assert (Hscan : forall d, In d (find_all_links w cwd (A P)) <-> In d (map fst sp)).
-  { intro d. rewrite (scan_of_inv P Pne Ppl w cwd _ I Hw).
-    - rewrite map_map. simpl. reflexivity.
-    - intros e He. apply in_map_iff in He. destruct He as [e0 [<- He0]]. simpl. apply Hroot. exact He0. }
+  intros P sp hint w n cwd Pne Ppl Hg Hw I Hres. destruct Hg as [Hnd Ht].
   unfold update_view. simpl fst.
   assert (Han : analyze_view hint w cwd (A P) (lk_of sp) = {| a_obsolete := []; a_update := []; a_new := [] |}).
   { unfold analyze_view. rewrite keys_of_lk by exact Ht.
-    set (existing := rev (pnodup (rev (map (fun d : path => d ++ [s_job]) (find_all_links w cwd (A P)))))).
-    assert (Hex : forall x, In x existing <-> In x (map key_of sp)).
-    { intro x. unfold existing. rewrite <- in_rev, pnodup_In, <- in_rev, !in_map_iff. split.
-      - intros [d [<- Hd]]. apply Hscan in Hd. apply in_map_iff in Hd. destruct Hd as [e [<- He]]. exists e. auto.
-      - intros [e [<- He]]. exists (fst e). split; [reflexivity|]. apply Hscan. apply in_map. exact He. }
+    fold (existing_of w cwd (A P)).
+    set (existing := existing_of w cwd (A P)).
+    assert (Hex : forall x, In x existing <-> In x (map key_of sp))
+      by (apply (existing_of_inv P Pne Ppl w cwd sp (conj Hnd Ht) Hw I)).
     assert (Hexk : forall x, In x existing -> exists e, In e sp /\ x = key_of e).
     { intros x Hx. apply Hex in Hx. apply in_map_iff in Hx. destruct Hx as [e [<- He]]. eauto. }
     f_equal.
